@@ -1,1 +1,75 @@
-fn main() { println!("flatsim"); }
+mod backend;
+mod batch;
+mod c06;
+mod c10;
+mod oracle;
+mod party;
+mod pipe;
+mod run;
+mod sched;
+mod shrink;
+mod tape;
+mod val;
+mod world;
+mod zoo;
+
+use std::process::exit;
+
+fn usage() -> ! {
+    eprintln!(
+        "usage:\n  flatsim run --property <C06..C10> --tier <quick|thorough> [--seed N] [--workers N] [--backend coro|threads]\n  flatsim replay <file>\n  flatsim selftest <zoo|determinism> [--seeds N]\n  flatsim one --property P --world blocking|async --type I --seed S   (debug: run + print summary)"
+    );
+    exit(2)
+}
+
+fn arg_val(args: &[String], name: &str) -> Option<String> {
+    args.iter().position(|a| a == name).and_then(|i| args.get(i + 1).cloned())
+}
+
+fn main() {
+    backend::install_panic_hook();
+    let args: Vec<String> = std::env::args().collect();
+    if args.len() < 2 {
+        usage();
+    }
+    let code = match args[1].as_str() {
+        "run" => {
+            let prop = arg_val(&args, "--property").unwrap_or_else(|| usage());
+            let tier = arg_val(&args, "--tier").or_else(|| std::env::var("VERIF_TIER").ok()).unwrap_or_else(|| "quick".into());
+            let seed = arg_val(&args, "--seed")
+                .or_else(|| std::env::var("VERIF_SEED").ok())
+                .and_then(|s| s.parse::<u64>().ok())
+                .unwrap_or(batch::DEFAULT_SEED);
+            let workers = arg_val(&args, "--workers")
+                .or_else(|| std::env::var("FLATSIM_WORKERS").ok())
+                .and_then(|s| s.parse::<usize>().ok())
+                .unwrap_or_else(|| std::thread::available_parallelism().map(|n| n.get()).unwrap_or(4));
+            let backend = arg_val(&args, "--backend").unwrap_or_else(|| "coro".into());
+            let scale = arg_val(&args, "--scale").and_then(|s| s.parse::<f64>().ok()).unwrap_or(1.0);
+            batch::run_check(&prop, &tier, seed, workers, &backend, scale)
+        }
+        "replay" => {
+            let path = args.get(2).cloned().unwrap_or_else(|| usage());
+            batch::replay_file(&path)
+        }
+        "selftest" => {
+            let what = args.get(2).cloned().unwrap_or_else(|| usage());
+            let seeds = arg_val(&args, "--seeds").and_then(|s| s.parse::<u64>().ok()).unwrap_or(300);
+            match what.as_str() {
+                "zoo" => batch::selftest_zoo(),
+                "determinism" => batch::selftest_determinism(seeds),
+                _ => usage(),
+            }
+        }
+        "one" => {
+            let prop = arg_val(&args, "--property").unwrap_or_else(|| usage());
+            let world = arg_val(&args, "--world").unwrap_or_else(|| "blocking".into());
+            let ty = arg_val(&args, "--type").and_then(|s| s.parse::<usize>().ok()).unwrap_or(0);
+            let seed = arg_val(&args, "--seed").and_then(|s| s.parse::<u64>().ok()).unwrap_or(1);
+            let backend = arg_val(&args, "--backend").unwrap_or_else(|| "coro".into());
+            batch::run_one_debug(&prop, &world, ty, seed, &backend)
+        }
+        _ => usage(),
+    };
+    exit(code)
+}
